@@ -88,7 +88,7 @@ func init() {
 		return S("$a = %d; $a += 3; $a -= 1; $a *= 2; $a %%= 7; $s = 'x'; $s .= 'y' . $a; $z = null; $z ??= 'd'; $a **= 2;\necho \"$a $s $z\\n\";\n", n(r, 1, 9))
 	}))
 	add(simple("expr", "arith-mixed", func(r *vh.Rand, u string) string {
-		return S("echo %d + %d * 2 - (4 / 2), ' ', 7 %% 3, ' ', 2 ** 5, ' ', 10 / 4, ' ', -%d + +3, ' ', 7 <=> %d, ' ', 1 + 1.5, \"\\n\";\n", n(r, 0, 9), n(r, 0, 9), n(r, 0, 9), n(r, 0, 9))
+		return S("echo %d + %d * 2 - (4 / 2), ' ', 7 %% 3, ' ', 2 ** 5, ' ', 10 / 4, ' ', -%d + 3, ' ', 7 <=> %d, ' ', 1 + 1.5, \"\\n\";\n", n(r, 0, 9), n(r, 0, 9), n(r, 0, 9), n(r, 0, 9))
 	}))
 	add(simple("expr", "compare-logic", func(r *vh.Rand, u string) string {
 		return S("$a = %d; $b = '%d';\nvar_dump($a == $b, $a === $b, $a != 3, $a !== 3, $a < 5 && $a > 1, $a < 1 || $a > 7, !($a >= 4), ($a <= 4) != true);\n", n(r, 0, 9), n(r, 0, 9))
@@ -434,6 +434,9 @@ func featureByTag(tag string) *feature {
 
 // FeatProg: one feature alone.
 func FeatProg(r *vh.Rand, f *feature, name, kind string) *Prog {
+	if scMultis[f.Tag] != nil {
+		return MultiProg(r, f, name, kind)
+	}
 	e, libs := f.Gen(r, name)
 	p := &Prog{Name: name, Kind: kind, Tags: []string{f.Tag}, Libs: map[string]string{}}
 	p.Parts = []string{e}
